@@ -64,9 +64,11 @@ Proof. exact StructProofs.compile_structure. Qed.
 
 (* THE STACK DISCIPLINE, FOR ALL SCRIPTS.  Every well-moded script (value-less constructs only in statement
    position - the class outside of which Prepare is known to accept underflowing code, finding D19) that the
-   compiler accepts has, for its main body and every function body, a stack-depth annotation that the
-   verifier's check accepts: on every control-flow path no instruction consumes more operands than were
-   produced, given that calls return a value. *)
+   compiler accepts has, for its main body and every function body, an annotation that the verifier's check
+   accepts (`has_ann`: at every instruction a lower bound on the stack depth and, for every foreach loop open
+   there, on the stack height the loop remembered - the height the stack is cut back to before each
+   iteration; (0, []) at the entry): on every control-flow path no instruction consumes more operands than
+   were produced, given that calls return a value. *)
 Theorem C18_compiled_has_annotation : forall fuel (ast : program) p,
   well_moded ast = true -> compile_program fuel ast = CompOk p ->
   ModedProofs.has_ann (pconsts p) (pmain p) /\
